@@ -21,5 +21,7 @@ Definition dispatch (f : Z) (w : wire) : wire :=
   | 9 => match w with WL [l; it] => w_str (render (r_str l) (r_items it)) | _ => w_err end
   | _ => if (Z.leb 10 f && Z.ltb f 30)%Z then dispatch_node f w
          else if (Z.leb 30 f && Z.ltb f 40)%Z then dispatch_check f w
+         else if (Z.eqb f 45)%Z then dispatch_cli f w
+         else if (Z.eqb f 46)%Z then dispatch_file f w
          else if (Z.leb 40 f && Z.ltb f 50)%Z then dispatch_opt f w else w_err
   end%Z.
